@@ -241,6 +241,11 @@ static int new_packet(int sk_fd, int timer_fd)
         return -1;
     }
 
+    if (n < (ssize_t)AVTP_FULL_HEADER_LEN) {
+        fprintf(stderr, "Dropping packet: too short\n");
+        return 0;
+    }
+
     if (!is_valid_packet(cvf)) {
         fprintf(stderr, "Dropping packet\n");
         return 0;
@@ -252,7 +257,20 @@ static int new_packet(int sk_fd, int timer_fd)
     if (res < 0)
         return -1;
 
+    /* The announced data must hold the H.264 header, fit the NAL buffer and lie
+     * inside the received packet.
+     */
+    if (Avtp_Cvf_GetStreamDataLength(cvf) < AVTP_H264_HEADER_LEN ||
+        Avtp_Cvf_GetStreamDataLength(cvf) > n - (ssize_t)sizeof(Avtp_Cvf_t)) {
+        fprintf(stderr, "Dropping packet: invalid stream data length\n");
+        return 0;
+    }
+
     h264_data_len = get_h264_data_len(cvf);
+    if (h264_data_len > DATA_LEN) {
+        fprintf(stderr, "Dropping packet: NAL unit too large\n");
+        return 0;
+    }
 
     res = schedule_nal(timer_fd, &tspec, h264Payload, h264_data_len);
     if (res < 0)
